@@ -45,17 +45,22 @@ def main():
     mp = os.path.join(VERIF, "seeded", "MATRIX.json")
     if os.path.exists(mp):
         matrix = json.load(open(mp))
+    seed2 = {}
+    sp = os.path.join(VERIF, "seeded", "RESULTS_seed2.json")
+    if os.path.exists(sp):
+        seed2 = json.load(open(sp))
     lines = ["# Seeded breakers: which checks catch which changes", "",
-             "first = own check, quick tier, when the breaker was first tried; final = own check, quick tier, committed checks;",
+             "first = own check, quick tier, when the breaker was first tried; final / seed 2 = own check, quick tier, committed checks, VERIF_SEED 1 / 2;",
              "others = other checks (quick tier) that also report a VIOLATION on the breaker (from MATRIX.json, where run).", "",
-             "| breaker | round | first | final | final buckets (first two) | other checks that fire |", "|---|---|---|---|---|---|"]
+             "| breaker | round | first | final | seed 2 | final buckets (first two) | other checks that fire |", "|---|---|---|---|---|---|---|"]
     for name in sorted(results):
         meta = json.load(open(os.path.join(VERIF, "seeded", name, "meta.json")))
         first = meta.get("own_check_quick_first_try", {}).get("rc")
         fin = results[name]
         others = sorted(k for k, val in (matrix.get(name) or {}).items() if val.get("rc") == 1 and k != fin["check"])
         word = {0: "missed", 1: "caught", 2: "harness error"}
-        lines.append(f"| {name} | {meta.get('round', 1)} | {word.get(first, first)} | {word.get(fin.get('rc'), fin.get('rc'))} | "
+        s2 = (seed2.get(name) or {}).get("rc")
+        lines.append(f"| {name} | {meta.get('round', 1)} | {word.get(first, first)} | {word.get(fin.get('rc'), fin.get('rc'))} | {word.get(s2, '-')} | "
                      f"{', '.join(fin.get('buckets', [])[:2])} | {', '.join(others)} |")
     open(os.path.join(VERIF, "seeded", "SUMMARY.md"), "w").write("\n".join(lines) + "\n")
     caught = sum(1 for v in results.values() if v.get("rc") == 1)
